@@ -5,7 +5,7 @@
    A position is the pair (nb, pos) the wrapper itself keeps: nb = number of keystream blocks the
    core has produced, 1 <= pos <= bs = offset of the next byte inside block nb-1 (pos = bs: the next
    byte is byte 0 of block nb).  [take n nb pos] is the keystream read byte by byte from there. *)
-From BM Require Import Stream Stream_proofs.
+From BM Require Import Stream Stream_proofs Plumbing.
 From Coq Require Import ZArith Lia.
 
 Section Refine.
@@ -170,6 +170,9 @@ Section Refine.
   (* the request fits: the blocks it consumes are available *)
   Definition fits (nb : N) (pos n : nat) : Prop :=
     match limit with Some L => (nb + N.of_nat (cbr n pos) <= L)%N | None => True end.
+
+  Lemma fits_dec nb pos n : fits nb pos n \/ ~ fits nb pos n.
+  Proof. clear. unfold fits. destruct limit as [L|]; [|auto]. destruct (N.le_gt_cases (nb + N.of_nat (cbr n pos)) L); [auto|right; lia]. Qed.
 
   Lemma check_remaining_spec nb wst n : WInv nb wst -> (N.of_nat n <= usize_max)%N ->
     check_remaining K wst n = true <-> fits nb (wr_pos wst) n.
@@ -581,6 +584,31 @@ Section Refine.
       + injection Hk as <-. cbn [fst snd]. replace (bs - pos) with 0 by lia. lia.
       + apply IH in Hk; auto; try lia.
         all: try (rewrite N2Z.inj_add in Hk; replace (bs - pos) with 0 by lia; nia).
+  Qed.
+
+
+  (* ================= C14: the core driven block-wise = the byte-level cipher on whole blocks ========= *)
+  Theorem core_equals_wrapper nb wst blocks : WInv nb wst -> wr_pos wst = bs -> all_len bs blocks ->
+    (N.of_nat (length (concat blocks)) <= usize_max)%N -> fits nb bs (length (concat blocks)) ->
+    exists wst', try_apply K wst true (concat blocks) (concat blocks) =
+                 Ok (wst', outs_of (snd (apply_ks_blocks K (at_block nb) (cells_ip blocks)))).
+  Proof.
+    clear set_at pos_at. intros HI Hpos Hall Hus Hfit.
+    destruct (try_apply_spec nb wst true (concat blocks) (concat blocks) HI eq_refl (fun _ => eq_refl) Hus) as [Hs _].
+    rewrite Hpos in Hs. destruct (Hs Hfit) as (wst' & E & _). exists wst'. rewrite E. f_equal. f_equal.
+    set (m := length blocks).
+    assert (Hlen : length (concat blocks) = m * bs) by (apply all_len_concat_length; auto).
+    assert (Hupm : upto (nb + N.of_nat m)).
+    { unfold fits, upto in *. destruct limit; auto. rewrite Hlen in Hfit.
+      destruct (take_blocks m nb) as [_ A1]. pose proof (adv_cbr (m * bs) nb bs) as A2. rewrite A1 in A2.
+      destruct (Nat.eqb_spec m 0); cbn [fst] in A2; lia. }
+    unfold apply_ks_blocks. unfold cells_ip. rewrite map_length. fold m.
+    rewrite ks_blocks_at by auto. cbn [snd]. unfold outs_of.
+    rewrite concat_xor_cells.
+    - fold (cells_ip blocks). rewrite map_rd_in_ip, Hlen. destruct (take_blocks m nb) as [-> _]. reflexivity.
+    - rewrite !map_length, seq_length. reflexivity.
+    - fold (cells_ip blocks). now rewrite map_rd_in_ip.
+    - apply KBs_all_len.
   Qed.
 
 End Refine.
